@@ -9,6 +9,7 @@ import (
 	"sort"
 	"strconv"
 	"strings"
+	"unicode/utf8"
 
 	"verif/harness/core"
 	"verif/harness/gitfmt"
@@ -184,6 +185,8 @@ type IgnoreRules struct {
 	Present bool
 	// Unsettled: the file has lines outside the forms the statement speaks about (blank lines)
 	Unsettled bool
+	// Odd: rules that are not valid UTF-8 (a Latin-1 name). What they hide is not settled; every other rule still counts.
+	Odd []string
 }
 
 func ParseIgnore(wt map[string][]byte) IgnoreRules {
@@ -205,6 +208,10 @@ func ParseIgnore(wt map[string][]byte) IgnoreRules {
 			ir.Unsettled = true
 			continue
 		}
+		if !utf8.ValidString(ln) {
+			ir.Odd = append(ir.Odd, strings.Trim(ln, "*/"))
+			continue
+		}
 		switch {
 		case strings.HasSuffix(ln, "/"):
 			ir.Dirs = append(ir.Dirs, strings.TrimSuffix(ln, "/"))
@@ -224,6 +231,11 @@ func (ir IgnoreRules) Ignored(p string) string {
 	}
 	res := "no"
 	base := path.Base(p)
+	for _, o := range ir.Odd {
+		if o != "" && strings.Contains(p, o) {
+			res = "dontcare"
+		}
+	}
 	for _, d := range ir.Dirs {
 		if strings.HasPrefix(p, d+"/") {
 			return "yes"
